@@ -4,12 +4,16 @@ EXTENDS ClientStream
 
 AllCfgs == [tls : TlsModes, sasl2 : BOOLEAN, sasl : BOOLEAN, legacy : BOOLEAN]
 
-Feat(t, m, s2, l, b, sm) == [tls |-> t, mechs |-> m, s2 |-> s2, legacy |-> l, bind |-> b, sm |-> sm]
+Feat(t, m, s2, l, b, sm) == [tls |-> t, mechs |-> m, s2 |-> s2, b2 |-> "none", r2 |-> FALSE, legacy |-> l, bind |-> b, sm |-> sm]
+\* SASL 2 with inline features: bind2 ("plain": no inline feature, "sm": stream management inline) and resumption
+Feat2(s2, b2, r2) == [tls |-> "absent", mechs |-> "none", s2 |-> s2, b2 |-> b2, r2 |-> r2, legacy |-> FALSE, bind |-> FALSE, sm |-> FALSE]
 
-\* every combination: 3*4*3*2*2*2 = 288 feature elements
+\* every combination: 3*4*3*3*2*2*2*2 = 1728 feature elements
 AllFeatureSets ==
-    {Feat(t, m, s2, l, b, sm) : t \in {"absent", "optional", "required"}, m \in {"none", "plain", "scram", "unknown"},
-                                s2 \in {"none", "plain", "scram"}, l \in BOOLEAN, b \in BOOLEAN, sm \in BOOLEAN}
+    {[tls |-> t, mechs |-> m, s2 |-> s2, b2 |-> b2, r2 |-> r2, legacy |-> l, bind |-> b, sm |-> sm] :
+        t \in {"absent", "optional", "required"}, m \in {"none", "plain", "scram", "unknown"},
+        s2 \in {"none", "plain", "scram"}, b2 \in {"none", "plain", "sm"}, r2 \in BOOLEAN,
+        l \in BOOLEAN, b \in BOOLEAN, sm \in BOOLEAN}
 
 \* representative subset used for replay in the quick tier
 CoreFeatureSets ==
@@ -24,7 +28,9 @@ CoreFeatureSets ==
       Feat("absent", "none", "none", TRUE, FALSE, FALSE),      \* legacy auth
       Feat("absent", "none", "none", FALSE, TRUE, FALSE),      \* bind
       Feat("absent", "none", "none", FALSE, TRUE, TRUE),       \* bind + sm
-      Feat("absent", "none", "none", FALSE, FALSE, TRUE) }     \* sm only
+      Feat("absent", "none", "none", FALSE, FALSE, TRUE),      \* sm only
+      Feat2("plain", "plain", FALSE),                          \* SASL 2 PLAIN + bind2
+      Feat2("plain", "sm", TRUE) }                             \* SASL 2 PLAIN + bind2 with sm + resumption
 
 \* quick-tier configurations: every TLS mode x {SASL only, SASL 2 only, legacy only, everything}
 QuickCfgs == {cf \in AllCfgs : \/ (cf.sasl /\ ~cf.sasl2 /\ ~cf.legacy)
